@@ -40,7 +40,8 @@ def fs_search(res, tier, rng, exe):
             # members: hostile names, some aimed at the planted links
             names = []
             isunix = rng.random() < 0.5; sep = b"/" if isunix else b"\\"
-            plan = ["dirlink", "dangling-final", "live-final", "dotdot", "abs", "mixed"][i % 6]       # every plan x every option set
+            plan = ["dirlink", "dangling-final", "live-final", "dotdot", "abs", "mixed", "longname"][i % 7]       # every plan x every option set
+            force_utf = None; extra_opts = []
             if plan == "dirlink":
                 os.symlink(outside, os.path.join(dest, "assets")); names = [b"assets" + sep + b"victim.txt", b"assets" + sep + b"new.txt", b"assets" + sep + b"sub" + sep + b"v2.txt",
                          b"assets" + sep + sep + b"dbl.txt", b"assets" + sep + b"." + sep + b"dot.txt", b"assets" + sep + sep + sep + b"victim.txt"]
@@ -53,17 +54,30 @@ def fs_search(res, tier, rng, exe):
                 names = [b".." + sep + b"outside" + sep + b"victim.txt", b"a" + sep + b".." + sep + b".." + sep + b"outside" + sep + b"evil", b".." + (b"\\" if isunix else b"/") + b"outside" + sep + b"victim.txt", b"..", b"a" + sep + b".."]
             elif plan == "abs":
                 names = [sep + outside.encode()[1:] + sep + b"victim.txt", sep + sep + b"etc" + sep + b"x", b"\xe0\x80\xaf" + outside.encode()[1:] + b"/victim.txt"]
+            elif plan == "longname":
+                # a name that fits the cabinet's 255 bytes but not the file system's once converted; links planted under what a shortened name would be
+                if (i // 7) % 2 == 0:
+                    names = [b"\xff" * 86]; force_utf = True; conv = b"\xef\xbf\xbd"
+                else:
+                    names = [b"\xe9" * 128]; force_utf = False; extra_opts = ["-e", "ISO-8859-1"]; conv = b"\xc3\xa9"
+                for cut in (255, 254, 253, 252):
+                    ln = (conv * 128)[:cut]
+                    while ln and (ln[-1] & 0xC0) == 0x80: ln = ln[:-1]        # not inside a character
+                    if ln and (ln[-1] & 0xC0) == 0xC0: ln = ln[:-1]
+                    try: os.symlink(os.path.join(outside, "victim.txt" if cut % 2 else "created-by-long.txt"), os.path.join(dest.encode(), ln))
+                    except OSError: pass
             else:
                 names = [gen_name(rng) for _ in range(4)]
             rng.shuffle(names)       # the first member to reach a planted link decides what happens to it
             names = [nm[:255] for nm in names if nm and b"\0" not in nm][:6]
             utf = rng.random() < 0.4
+            if force_utf is not None: utf = force_utf
             mem = [cabfmt.Member(nm, b"payload-%d" % k, attribs=(0x80 if utf else 0) | 0x20) for k, nm in enumerate(names)]
             if isunix and not any(b"/" in m.name for m in mem): pass
             cab = cabfmt.build_single([cabfmt.Folder(("none",), mem)], rng)
             cabp = os.path.join(work, "t.cab"); open(cabp, "wb").write(cab)
             before = snapshot(outside)
-            opts = [[], ["-n"], ["-L"], ["-q"], ["-n", "-L"], ["-L", "-q"]][(i // 6) % 6]
+            opts = [[], ["-n"], ["-L"], ["-q"], ["-n", "-L"], ["-L", "-q"]][(i // 7) % 6] + extra_opts
             r = subprocess.run([exe] + opts + ["-d", dest, cabp], capture_output=True, timeout=30, cwd=work)
             after = snapshot(outside)
             res.evaluations += 1; res.nontrivial.add((plan, tuple(names), tuple(opts))); res.count("fs-" + plan)
